@@ -28,6 +28,7 @@ CONSTANTS
   Supported,                  \* [CfgAlgs \X QueryOps -> BOOLEAN]        (algorithm's check for that operator)
   HasWeightCfg,               \* [cfg id -> BOOLEAN]: exported op_config carries weight_tensor_config
   ScopePairs,                 \* pairs <<scope as calibration sees an operator, scope as quantization sees it>> (C10)
+  Lists,                      \* sequence of rule lists that load_quantization_recipe may be called with
   MaxLen,                     \* history bound
   Fixes                       \* "wcfg": from_dict tolerates a missing weight config (F12); "noqcfg": no_quantize rules keep their config on load (F14)
 
@@ -90,8 +91,16 @@ Resolve(rs, op, sc) ==
   IN f(1, 1, <<Noq, Dflt>>)
 ResolveAll(rs) == [q \in QueryOps \X Scopes |-> Resolve(rs, q[1], q[2])]
 
+\* load_quantization_recipe(Lists[i]): the store is reset, then the rules are added one by one; the first rule that is
+\* refused (or whose config cannot be rebuilt) raises and leaves the rules before it loaded (not atomic)
+Load(i) ==
+  /\ Len(hist) < MaxLen
+  /\ LET l == LoadAll(Lists[i]) IN rules' = l[2] /\ last' = l[1]
+  /\ hist' = Append(hist, <<"load", i>>)
+
 Init == rules = <<>> /\ hist = <<>> /\ last = "init"
-Next == \E r \in Regexes, o \in OpSels, ca \in CfgAlgs : Add(r, o, ca)
+Next == \/ \E r \in Regexes, o \in OpSels, ca \in CfgAlgs : Add(r, o, ca)
+        \/ \E i \in 1..Len(Lists) : Load(i)
 Spec == Init /\ [][Next]_vars
 
 \* ------------------------------------------------------------------ properties (design level)
@@ -102,8 +111,11 @@ UniqueRegex == \A i, j \in 1..Len(rules) : i # j => rules[i].regex # rules[j].re
 StarFirst == \A i \in 1..Len(rules) : \A k \in 2..Len(rules[i].items) : rules[i].items[k].op # Star
 NonEmptyLists == \A i \in 1..Len(rules) : rules[i].items # <<>>
 \* action properties: regex order is order of first insertion; a refused update changes nothing
-RegexOrderStable == [][ \A i \in 1..Len(rules) : i <= Len(rules') /\ rules'[i].regex = rules[i].regex ]_vars
-RefusalIsNoop == [][ last' = "refused" => rules' = rules ]_vars
+RegexOrderStable == [][ hist'[Len(hist')][1] # "load" =>
+                           \A i \in 1..Len(rules) : i <= Len(rules') /\ rules'[i].regex = rules[i].regex ]_vars
+\* a load starts from the empty store: its result does not depend on what was there before
+LoadResets == [][ hist'[Len(hist')][1] = "load" => rules' = LoadAll(Lists[hist'[Len(hist')][2]])[2] ]_vars
+RefusalIsNoop == [][ (last' = "refused" /\ hist'[Len(hist')][1] # "load") => rules' = rules ]_vars
 \* resolution never yields an unsupported (alg, cfg) for the operator
 ResolvedIsSupported == \A q \in QueryOps \X Scopes :
                           LET r == Resolve(rules, q[1], q[2]) IN r[1] = Noq \/ Supported[<<<<r[2], r[1]>>, q[1]>>]
